@@ -893,6 +893,9 @@ def stmt_end(toks, k):
 
 
 ANCHOR_REPORT = []
+# lenient mode: a proof hint (@loop/@before/@after/@closure) whose anchor is lost is dropped and recorded here instead of
+# aborting the extraction; the runner then treats every failure of that function as hint-level
+LENIENT = {'on': False, 'lost': []}
 # markers around spliced proof hints (loop invariants, proof blocks): a failure located between them is a
 # failure of the proof hint, not of the function's contract
 GB = '/*vxg<*/'
@@ -900,6 +903,25 @@ GE = '/*>vxg*/'
 
 
 def splice(text, sections, where):
+    """sections: list of (kind, args, body)"""
+    if LENIENT['on']:
+        kept = []
+        for sec in sections:
+            if sec[0] in ('loop', 'before', 'after', 'closure'):
+                try:
+                    splice_strict(text, [sec] + [x for x in sections if x[0] == 'ret'], where)
+                    kept.append(sec)
+                except ExtractError as e:
+                    if e.kind != 'anchor-lost':
+                        raise
+                    LENIENT['lost'].append((where, '@%s %s' % (sec[0], ' '.join(sec[1]))))
+            else:
+                kept.append(sec)
+        sections = kept
+    return splice_strict(text, sections, where)
+
+
+def splice_strict(text, sections, where):
     """sections: list of (kind, args, body)"""
     inserts = []   # (offset, order, text)
     deletions = []  # (start, end) spans of the original text to drop (closure parameter lists being replaced)
